@@ -539,6 +539,38 @@ fn opt_case(out: &mut Out, c: TileCompression, bits: [bool; 3], goal: &str, kind
 }
 
 /// reader-level: coordinates outside the level must give `None`/`Err`, not a panic (the second half of F9)
+fn reader_case(out: &mut Out, d: &SourceDef, flip: bool, c: (u8, u32, u32), rt: &tokio::runtime::Runtime) {
+	let path = d.path.clone();
+	let r = catch(|| {
+		rt.block_on(async {
+			let reader: Box<dyn TilesReaderTrait> = if d.container == "mbtiles" {
+				MBTilesReader::open_path(&path)?.boxed()
+			} else {
+				versatiles_container::get_reader(path.to_str().unwrap()).await?
+			};
+			let reader: Box<dyn TilesReaderTrait> = if flip {
+				let mut cp = TilesConverterParameters::new_default();
+				cp.flip_y = true;
+				TilesConvertReader::new_from_reader(reader, cp)?.boxed()
+			} else {
+				reader
+			};
+			let coord = TileCoord3::new(c.1, c.2, c.0)?;
+			anyhow::Ok(reader.get_tile_data(&coord).await.ok().flatten().is_some())
+		})
+	});
+	let in_range = (c.1 as u64) < (1u64 << c.0) && (c.2 as u64) < (1u64 << c.0);
+	let ok = if in_range { matches!(r, Ok(Ok(_))) } else { matches!(r, Ok(Ok(false))) };
+	out.oracle(
+		ok,
+		"C05 reader lookup outside the level",
+		json!({"kind":"reader_out_of_range","container":d.container,"flip":flip,"outcome": match &r { Ok(Ok(true)) => "tile", Ok(Ok(false)) => "none", Ok(Err(_)) => "open-error", Err(_) => "panic" }}),
+		json!({"case": format!("C05 reader {} {} {}/{}/{}", d.id, flip as u8, c.0, c.1, c.2), "panic": r.as_ref().err().map(|m| trunc(m, 160))}),
+	);
+	out.eval(&format!("reader {} {flip} {c:?}", d.id), true);
+	out.count("reader_level_lookups");
+}
+
 fn reader_out_of_range(out: &mut Out, defs: &[SourceDef], rt: &tokio::runtime::Runtime) {
 	let coords: Vec<(u8, u32, u32)> = vec![(0, 0, 1), (1, 0, 2), (1, 2, 0), (2, 1, 4), (3, 0, 8), (3, 7, u32::MAX), (5, 0, 32), (31, 0, u32::MAX), (3, u32::MAX, u32::MAX)];
 	for d in defs.iter().filter(|d| d.fmt == "pbf" || d.fmt == "png") {
@@ -547,34 +579,53 @@ fn reader_out_of_range(out: &mut Out, defs: &[SourceDef], rt: &tokio::runtime::R
 				continue; // plain versatiles/pmtiles lookups are covered over HTTP
 			}
 			for c in &coords {
-				let path = d.path.clone();
-				let r = catch(|| {
-					rt.block_on(async {
-						let reader: Box<dyn TilesReaderTrait> = if d.container == "mbtiles" {
-							MBTilesReader::open_path(&path)?.boxed()
-						} else {
-							versatiles_container::get_reader(path.to_str().unwrap()).await?
-						};
-						let reader: Box<dyn TilesReaderTrait> = if flip {
-							let mut cp = TilesConverterParameters::new_default();
-							cp.flip_y = true;
-							TilesConvertReader::new_from_reader(reader, cp)?.boxed()
-						} else {
-							reader
-						};
-						let coord = TileCoord3::new(c.1, c.2, c.0)?;
-						anyhow::Ok(reader.get_tile_data(&coord).await.ok().flatten().is_some())
-					})
-				});
-				let ok = matches!(r, Ok(Ok(false)));
+				reader_case(out, d, flip, *c, rt);
+			}
+		}
+	}
+}
+
+/// requests outside the model's alphabet (raw UTF-8, control-ish escapes, huge numbers, repeated headers):
+/// the statement still demands a complete response with 200/400/404
+fn odd_requests(out: &mut Out, servers: &[Server], defs: &[SourceDef], flip_defs: &[SourceDef]) {
+	let long_digits = "9".repeat(400);
+	let rests: Vec<String> = vec![
+		"%00/0/0".to_string(),
+		"1/0/0%2e%2e".to_string(),
+		format!("{long_digits}/0/0"),
+		format!("1/{long_digits}/0"),
+		format!("1/0/{long_digits}"),
+		"1/0/0?x=1/2/3".to_string(),
+		"1/0/0;v=1".to_string(),
+		"..//../1/0/0".to_string(),
+		"1/0/0/..".to_string(),
+		"٣/٠/٠".to_string(),
+		"1/0/٣".to_string(),
+		"1/0/0²".to_string(),
+	];
+	for srv in servers {
+		let pool: &[SourceDef] = if srv.flip { flip_defs } else { defs };
+		for d in pool.iter().filter(|d| d.fmt == "pbf").take(4) {
+			for rest in &rests {
+				let target = format!("/tiles/{}/{}", d.id, rest);
+				let resp = http_get(srv.port, &target, Some("gzip, br"));
+				// hyper may refuse the request line itself (400) – still a complete response
+				let ok = resp.as_ref().is_some_and(|r| matches!(r.status, 200 | 400 | 404));
 				out.oracle(
 					ok,
-					"C05 reader lookup outside the level",
-					json!({"kind":"reader_out_of_range","container":d.container,"flip":flip,"outcome": match &r { Ok(Ok(true)) => "tile", Ok(Ok(false)) => "none", Ok(Err(_)) => "open-error", Err(_) => "panic" }}),
-					json!({"case": format!("C05 reader {} {} {}/{}/{}", d.id, flip as u8, c.0, c.1, c.2), "panic": r.as_ref().err().map(|m| trunc(m, 160))}),
+					"C05 odd request: no complete 200/400/404 response",
+					json!({"kind":"odd_request","container":d.container,"dropped":resp.is_none()}),
+					json!({"case": format!("C05 odd {}", hex(target.as_bytes())), "request": target, "status": resp.as_ref().map(|r| r.status)}),
 				);
-				out.eval(&format!("reader {} {flip} {c:?}", d.id), true);
+				out.eval(&format!("odd {} {} {}", srv.port, d.id, rest), true);
+				out.count("odd_requests");
 			}
+			// two Accept-Encoding headers: only the first one may be used, and only what it lists
+			let target = format!("/tiles/{}/1/1/1", d.id);
+			let r2 = http_get(srv.port, &target, Some("identity\r\nAccept-Encoding: br"));
+			let ok = r2.as_ref().is_some_and(|r| matches!(r.status, 200 | 400 | 404) && r.header("content-encoding").is_none_or(|e| e == "br"));
+			out.oracle(ok, "C05 odd request: repeated Accept-Encoding", json!({"kind":"odd_repeated_header","container":d.container}), json!({"case": format!("C05 odd2 {}", d.id), "status": r2.as_ref().map(|r| r.status)}));
+			out.count("odd_requests");
 		}
 	}
 }
@@ -629,6 +680,12 @@ pub fn run(args: &Args) {
 					let pool: Vec<&SourceDef> = (if flip { &flip_defs } else { &defs }).iter().filter(|d| d.comp == parse_comp(comp).unwrap() && d.fmt == *fmt).collect();
 					for d in pool {
 						do_request(&mut out, &cx, srv, d, &rest, &accept, None, "replay");
+					}
+				}
+				["C05", "reader", id, flip, coord] => {
+					let c: Vec<u64> = coord.split('/').map(|x| x.parse().unwrap()).collect();
+					if let Some(d) = defs.iter().find(|d| d.id == *id) {
+						reader_case(&mut out, d, *flip == "1", (c[0] as u8, c[1] as u32, c[2] as u32), &rt);
 					}
 				}
 				["C05", "opt", c, bits, goal, kind, pl] => {
@@ -697,7 +754,7 @@ pub fn run(args: &Args) {
 		}
 	}
 	// D. sampled requests
-	let n = args.n(2500, 40000);
+	let n = args.n(5000, 60000);
 	for _ in 0..n {
 		let srv = &servers[match rng.below(10) {
 			0..=3 => 0,
@@ -711,6 +768,8 @@ pub fn run(args: &Args) {
 		out.count(&format!("accept_{aclass}"));
 		do_request(&mut out, &cx, srv, d, &rest, &acc, Some((exp, listed)), class);
 	}
+	// E. requests outside the model's alphabet (oracle only)
+	odd_requests(&mut out, &servers, &defs, &flip_defs);
 	// the servers must have survived everything
 	let mut servers = servers;
 	for s in servers.iter_mut() {
